@@ -44,7 +44,9 @@ the connection, the SQLite transaction lock is free.
 Deviations from DESIGN.md C18: the "fake cache object" was replaced by the real SessionCache over a transactional
 connection model (stronger: real commit()/rollback()/flush run); retry bound is 3 in the quick tier only for the
 tuple/tuple configuration and 2 for the three configurations involving a callable (3 everywhere in the thorough tier,
-4 for tuple/tuple); BaseException-only outcomes (KeyboardInterrupt, GeneratorExit raised by the body itself) are not
+4 for tuple/tuple; the thorough tier also adds the outcome "allowed exception carrying should_retry" and generators
+with 3 yields); the nesting product did not confirm as one harness in 150 s and is split into three harness functions
+(decorated-in-with, decorated-in-decorated, with-in-with / three levels); BaseException-only outcomes (KeyboardInterrupt, GeneratorExit raised by the body itself) are not
 symbolic because a CrossHair harness may only catch Exception.
 """
 import os, sys, types, warnings
@@ -52,7 +54,8 @@ from engine.ch import ok
 
 R_TT = int(os.environ.get('C18_R_TT', '3'))      # retry bound, tuple/tuple configuration
 R_C = int(os.environ.get('C18_R_C', '2'))        # retry bound, configurations with a callable
-NCODES = 6
+NCODES = int(os.environ.get('C18_NCODES', '6'))  # 7 adds C_EASR (thorough tier)
+G_Y = int(os.environ.get('C18_G_Y', '2'))        # generator: max number of yields
 
 STUBBED = []
 db = Row = conn = core = local = db_session = None
@@ -68,7 +71,7 @@ class EO(Exception): pass                # neither
 class EAR(EA, ER): pass                  # ancestors in both families (passes db_session's "same class in both lists" check)
 class Boom(Exception): pass              # raised by a misbehaving allowed_exceptions callable
 
-RET, C_EA, C_ER, C_EO, C_EAR, C_SR = range(6)      # C_SR: EO instance carrying should_retry = True
+RET, C_EA, C_ER, C_EO, C_EAR, C_SR, C_EASR = range(7)   # C_SR / C_EASR: EO / EA instance carrying should_retry = True
 
 
 def is_allowed(e): return isinstance(e, A)
@@ -78,8 +81,8 @@ def allowed_raises(e):
     raise Boom()
 
 
-def ref_allowed(code): return code in (C_EA, C_EAR)
-def ref_retryable(code): return code in (C_ER, C_EAR, C_SR)
+def ref_allowed(code): return code in (C_EA, C_EAR, C_EASR)
+def ref_retryable(code): return code in (C_ER, C_EAR, C_SR, C_EASR)
 
 
 def rows(i): return ['INSERT r%d' % i, ('Row', i)]
@@ -251,8 +254,11 @@ def throw_code(code, i, raised):
     elif code == C_ER: e = ER(i)
     elif code == C_EO: e = EO(i)
     elif code == C_EAR: e = EAR(i)
-    else:
+    elif code == C_SR:
         e = EO(i)
+        e.should_retry = True
+    else:
+        e = EA(i)
         e.should_retry = True
     raised.append(e)
     raise e
@@ -532,9 +538,9 @@ def _nested(outer_decorator, inner_kind, inner_retry, inner_flag, inner_code, ca
     return ok(good and inner_exc_ok and checks[0] is True and clean_after())
 
 
-def nested_decorated(outer_decorator: bool, inner_retry: int, inner_flag: int, inner_code: int, catch: bool,
-                     outer_code: int, outer_serializable: bool) -> bool:
-    """Inner session = @db_session(retry=inner_retry, ...) function called from the outer body (see _nested).
+def nested_decorated_in_with(inner_retry: int, inner_flag: int, inner_code: int, catch: bool,
+                             outer_code: int, outer_serializable: bool) -> bool:
+    """Inner session = @db_session(retry=inner_retry, ...) function called inside `with db_session(...)` (see _nested).
 
     pre: 0 <= inner_retry <= 1
     pre: inner_retry == 0 or inner_flag != 3
@@ -544,7 +550,22 @@ def nested_decorated(outer_decorator: bool, inner_retry: int, inner_flag: int, i
     pre: inner_flag == 2 or not outer_serializable
     post: _
     """
-    return _nested(outer_decorator, 0, inner_retry, inner_flag, inner_code, catch, outer_code, outer_serializable)
+    return _nested(False, 0, inner_retry, inner_flag, inner_code, catch, outer_code, outer_serializable)
+
+
+def nested_decorated_in_decorated(inner_retry: int, inner_flag: int, inner_code: int, catch: bool,
+                                  outer_code: int, outer_serializable: bool) -> bool:
+    """Inner session = @db_session(retry=inner_retry, ...) function called from a @db_session function (see _nested).
+
+    pre: 0 <= inner_retry <= 1
+    pre: inner_retry == 0 or inner_flag != 3
+    pre: 0 <= inner_flag <= 3
+    pre: inner_code in (RET, C_EA, C_ER, C_EO)
+    pre: outer_code in (RET, C_EA, C_EO)
+    pre: inner_flag == 2 or not outer_serializable
+    post: _
+    """
+    return _nested(True, 0, inner_retry, inner_flag, inner_code, catch, outer_code, outer_serializable)
 
 
 def nested_with(outer_decorator: bool, deep: bool, inner_flag: int, inner_code: int, catch: bool,
@@ -570,13 +591,13 @@ def generator(n_yields: int, commit_mask: int, raise_at: int, raise_code: int, a
     step `action_at`; 3 = close() it at step `action_at`; 4 = the consumer itself is inside a db_session at step
     `action_at` (refused by pony, generator body does not advance).
 
-    pre: 0 <= n_yields <= 2
-    pre: 0 <= commit_mask < 4
-    pre: -1 <= raise_at <= 2
+    pre: 0 <= n_yields <= G_Y
+    pre: 0 <= commit_mask < 2 ** G_Y
+    pre: -1 <= raise_at <= G_Y
     pre: raise_code in (C_EA, C_EO)
     pre: raise_at >= 0 or raise_code == C_EO
     pre: 0 <= action <= 4
-    pre: 0 <= action_at <= 1
+    pre: 0 <= action_at <= G_Y - 1
     pre: action >= 2 or action_at == 0
     post: _
     """
@@ -766,5 +787,5 @@ def bottle_route(code: int, arg: int) -> bool:
 
 
 HARNESSES = ('retry_tuple_tuple', 'retry_callable_tuple', 'retry_tuple_callable', 'retry_callable_callable',
-             'retry_default_exceptions', 'context_manager', 'context_manager_refusals', 'nested_decorated', 'nested_with', 'generator',
+             'retry_default_exceptions', 'context_manager', 'context_manager_refusals', 'nested_decorated_in_with', 'nested_decorated_in_decorated', 'nested_with', 'generator',
              'generator_refusals', 'flask_request', 'bottle_route')
